@@ -60,9 +60,46 @@ def atoms_in(t, defs=None, depth=0):
     return [norm(p)]
 
 
-def tv(t, val, defs=None, depth=0):
-    """True / False / None (undetermined) of test t under {atom text: bool}"""
+_CMP = {ast.Eq: lambda a, b: a == b, ast.NotEq: lambda a, b: a != b, ast.Lt: lambda a, b: a < b, ast.LtE: lambda a, b: a <= b,
+        ast.Gt: lambda a, b: a > b, ast.GtE: lambda a, b: a >= b, ast.Is: lambda a, b: a is b, ast.IsNot: lambda a, b: a is not b}
+
+
+def _const_of(e, consts):
+    """(known?, value) of an expression made of constants and names with a known constant value"""
+    if isinstance(e, ast.Constant):
+        return True, e.value
+    if isinstance(e, ast.Name) and consts is not None and e.id in consts:
+        return True, consts[e.id]
+    if isinstance(e, ast.UnaryOp) and isinstance(e.op, ast.USub):
+        k, v = _const_of(e.operand, consts)
+        if k and isinstance(v, (int, float)):
+            return True, -v
+    return False, None
+
+
+def tv(t, val, defs=None, depth=0, consts=None):
+    """True / False / None (undetermined) of test t under {atom text: bool}; `consts` = locals whose constant value is
+    known on this path (flags, three-way comparison results)"""
     defs = defs or {}
+    if consts:
+        if isinstance(t, ast.Compare) and len(t.ops) == 1 and type(t.ops[0]) in _CMP:
+            ka, a = _const_of(t.left, consts)
+            kb, b = _const_of(t.comparators[0], consts)
+            if ka and kb:
+                try:
+                    return bool(_CMP[type(t.ops[0])](a, b))
+                except TypeError:
+                    return None
+        if isinstance(t, ast.Name) and t.id in consts:
+            return bool(consts[t.id])
+        if isinstance(t, ast.UnaryOp) and isinstance(t.op, ast.Not):
+            r0 = tv(t.operand, val, defs, depth, consts)
+            return None if r0 is None else (not r0)
+        if isinstance(t, ast.BoolOp):
+            vs = [tv(v, val, defs, depth, consts) for v in t.values]
+            if isinstance(t.op, ast.And):
+                return False if any(v is False for v in vs) else (True if all(v is True for v in vs) else None)
+            return True if any(v is True for v in vs) else (False if all(v is False for v in vs) else None)
     p, neg = positive(t)
     if isinstance(p, ast.BoolOp):
         vs = [tv(v, val, defs, depth) for v in p.values]
@@ -118,43 +155,90 @@ class Path(object):
         return [norm(s) for s in self.effects]
 
 
-def paths(stmts, val, defs=None, enter_loops=False, limit=64):
-    """All effect sequences of a statement list under the valuation."""
+def paths(stmts, val, defs=None, enter_loops=False, limit=64, track=False, call_value=None):
+    """All effect sequences of a statement list under the valuation.  With track=True locals that are assigned a
+    constant (flags, codes) are followed along each path and decide the tests on them; call_value(call node, val)
+    may give the constant a call is known to return under the valuation (a three-way comparison helper)."""
     defs = defs or {}
     done = []
 
-    def go(todo, effects, free):
+    def bind(s, consts):
+        """consts after the simple statement s"""
+        if not track or not isinstance(s, (ast.Assign, ast.AugAssign)):
+            return consts
+        out = dict(consts)
+        if isinstance(s, ast.AugAssign):
+            if isinstance(s.target, ast.Name):
+                out.pop(s.target.id, None)
+            return out
+        pairs = []
+        for tgt in s.targets:
+            if isinstance(tgt, ast.Name):
+                pairs.append((tgt, s.value))
+            elif isinstance(tgt, (ast.Tuple, ast.List)) and isinstance(s.value, (ast.Tuple, ast.List)) and \
+                    len(tgt.elts) == len(s.value.elts):
+                pairs.extend(zip(tgt.elts, s.value.elts))
+            elif isinstance(tgt, (ast.Tuple, ast.List)):
+                for x in ast.walk(tgt):
+                    if isinstance(x, ast.Name):
+                        out.pop(x.id, None)
+        for tgt, v in pairs:
+            if not isinstance(tgt, ast.Name):
+                continue
+            k, c = _const_of(v, consts)
+            if not k and isinstance(v, ast.Call) and call_value is not None:
+                r = call_value(v, val)
+                if r is not None:
+                    k, c = True, r[0]
+            if not k and isinstance(v, ast.Compare) or isinstance(v, (ast.BoolOp, ast.UnaryOp)):
+                r = tv(v, val, defs, 0, consts)
+                if r is not None:
+                    k, c = True, r
+            if k:
+                out[tgt.id] = c
+            else:
+                out.pop(tgt.id, None)
+        return out
+
+    def go(todo, effects, free, consts=None):
+        consts = consts or {}
         if len(done) > limit:
             return
         for i, s in enumerate(todo):
             rest = todo[i + 1:]
             if isinstance(s, ast.If):
-                t = tv(s.test, val, defs)
+                t = tv(s.test, val, defs, 0, consts if track else None)
                 if t is None:
-                    go(list(s.body) + rest, list(effects), free + [(s.test, True)])
-                    go(list(s.orelse) + rest, list(effects), free + [(s.test, False)])
+                    go(list(s.body) + rest, list(effects), free + [(s.test, True)], consts)
+                    go(list(s.orelse) + rest, list(effects), free + [(s.test, False)], consts)
                     return
-                go(list(s.body if t else s.orelse) + rest, effects, free)
+                go(list(s.body if t else s.orelse) + rest, effects, free, consts)
                 return
             if isinstance(s, (ast.Return, ast.Raise, ast.Continue, ast.Break)):
                 done.append(Path(effects, type(s).__name__.lower(), s, free))
                 return
             if isinstance(s, ast.Try):
                 # the normal path of the try body; handlers are separate ladders
-                go(list(s.body) + list(s.orelse) + list(s.finalbody) + rest, effects, free)
+                go(list(s.body) + list(s.orelse) + list(s.finalbody) + rest, effects, free, consts)
                 return
             if isinstance(s, ast.With):
-                go(list(s.body) + rest, effects + [s], free)
+                go(list(s.body) + rest, effects + [s], free, consts)
                 return
             if isinstance(s, (ast.For, ast.While)):
                 if enter_loops:
-                    go(list(s.body) + rest, effects, free)
+                    go(list(s.body) + rest, effects, free, consts)
                     return
                 effects = effects + [s]
+                if track:
+                    # whatever the loop assigns is unknown afterwards
+                    consts = {k: v for k, v in consts.items()
+                              if not any(isinstance(x, ast.Name) and x.id == k and isinstance(x.ctx, ast.Store)
+                                         for x in ast.walk(s))}
                 continue
             if isinstance(s, ast.Pass) or (isinstance(s, ast.Expr) and isinstance(s.value, ast.Constant)):
                 continue
             effects = effects + [s]
+            consts = bind(s, consts)
         done.append(Path(effects, 'fall', None, free))
     go(list(stmts), [], [])
     return done
@@ -316,3 +400,21 @@ def unroll(e):
         if seq is not None and isinstance(g.target, ast.Name):
             return [ast.fix_missing_locations(_SubstNames({g.target.id: x}).visit(copy.deepcopy(e.elt))) for x in seq]
     return None
+
+
+class _PickBranch(ast.NodeTransformer):
+    def __init__(self, val, defs):
+        self.val = val
+        self.defs = defs
+
+    def visit_IfExp(self, node):
+        self.generic_visit(node)
+        t = tv(node.test, self.val, self.defs)
+        if t is None:
+            return node
+        return node.body if t else node.orelse
+
+
+def decide_ifexps(e, val, defs=None):
+    """e with every conditional expression whose test the valuation decides replaced by the branch taken"""
+    return ast.fix_missing_locations(_PickBranch(val, defs or {}).visit(copy.deepcopy(e)))
